@@ -26,8 +26,11 @@ def run(ctx):
     dry = [s for s in fr.enumerate_scenarios(2, faults=["none", "read", "fsize"]) if s["flags"]["diff"] or s["flags"]["print"]]
     # (patches that cannot be loaded are few and end the run at once: a fixed share of them is always replayed)
     bad = [s for s in scs if s["fault"]["p"] == "badpatch"] + [s for s in fr.enumerate_scenarios(1, faults=["badpatch"]) if s["flags"]["diff"] or s["flags"]["print"]]
-    scs = [s for s in scs if s["fault"]["p"] != "badpatch"]
-    scs = pick(ctx, scs, 860 if quick else 12000) + pick(ctx, bad, 40 if quick else 400) + pick(ctx, dry, 150 if quick else 2000)
+    scs = [s for s in scs if s["fault"]["p"] not in ("badpatch", "stdoutfull")]
+    # dry runs whose standard output cannot be written to (two and three files: a failing file before and after)
+    full = [s for s in fr.enumerate_scenarios(2, faults=["stdoutfull"]) if s["flags"]["diff"] or s["flags"]["print"]]
+    bad += pick(ctx, full, 80 if quick else 600)
+    scs = pick(ctx, scs, 860 if quick else 12000) + pick(ctx, bad, 120 if quick else 1000) + pick(ctx, dry, 150 if quick else 2000)
     # many failing files in one run (the exit status is one byte wide: counts at and around its multiples)
     for n in ((255, 256) if quick else (255, 256, 257, 512, 768)):
         scs.append(dict(kinds=["unparseable"] * n + ["match"], flags=wr[ctx.rng.randrange(len(wr))], fault=dict(f=0, p="none")))
